@@ -29,13 +29,27 @@ from saml2_tophat.config import SPConfig
 from saml2_tophat.saml import NameID, NAMEID_FORMAT_TRANSIENT
 
 CLAIM = {
-    "text": "WORK IN PROGRESS: no C17 theorem is proved yet (Props/C17.v is a stub). Only tested so far: correspondence of Model.Encrypt.idp_build and Model.Encrypt.parse_response_t with the implementation, and byte-level leak / key oracles on Server.create_authn_response.",
-    "note": "work in progress; expects /repo + proposed_fix/C17-1 and C17-2",
-    "technique": "machine-checked proof (Coq, symbolic encryption) + correspondence on real encrypted messages + implementation-level oracles",
+    "text": "Coq theorems (Props/C17.v, all closed). IDENTITY PROVIDER, on an executable model of Server._authn_response / Entity._response / _encrypt_assertion with symbolic XML (EncryptedData = key + plaintext subtree, a signature reveals what it covers): C17_confidential / C17_confidential_advice — for EVERY option combination (sign_response, sign_assertion, encrypt_assertion, encrypted_advice_attributes, pefim, self-contained), every encrypt_cert_* argument and every list of metadata certificates, if encrypt_assertion (resp. PEFIM advice encryption) is requested and the SP has an encryption certificate (metadata or argument), then what an observer can read off the response, and whether one is emitted, is IDENTICAL for any two identities (name id, attribute names, attribute values; for advice: the attributes) — non-interference, with the string form C17_no_identity_string / C17_no_advice_attribute_string; C17_opens_only_under_sp_key — every ciphertext at any depth is for a usable certificate supplied for that SP; C17_all_certificates_fail_raises; C17_confidential_advice_before_fix_refuted keeps the repaired leak visible. SERVICE PROVIDER, shared pipeline model (the one of C02/C04/C05): C17_same_checks — the assertion stage accepts iff the stage that sends decrypted assertions through the plain path (signature looked at again) accepts, with the same state; C17_decrypted_checked — the C04/C05 facts hold for every decrypted assertion of an accepted response and its signature, if any, verified; C17_reads_exactly_processed; C17_undecryptable — nothing opens => no assertion, no name id. SERVICE PROVIDER, document trees (EncryptedData anywhere: advice, nested, stray, plaintext inside EncryptedAssertion; any key set, tool policy {fail, skip}, fault schedule; the state a failed first attempt leaves behind): C17_second_loop_only_adds — decrypting never removes or alters an assertion already seen; C17_second_loop_sees_nothing_new / C17_tree_assertion_facts — with the id comparison after the second loop, EVERY assertion read (also after the retry) had its signature verified and is accepted by the plain-path function; C17_second_loop_before_fix_refuted (one failing decrypt call lets an assertion with a bad signature through) and C17_skipping_tool_before_fix_refuted keep the repaired defect visible. ONLY TESTED: agreement of the three models with the code (correspondence), the byte-level leak search (raw, XML-escaped, percent, numeric-entity, base64 at 3 alignments, hex), opening with each harness key, the IdP->SP round trip with first/second/no matching key pair, the C04/C05 mutations inside the plaintext.",
+    "note": "Expects /repo + proposed_fix/C17-1.diff (advice left in clear by the early return of _response) + proposed_fix/C17-2.diff (assertions surfacing in the non-verifying second decrypt loop). Trusted: Coq kernel + vm_compute; the hand-written models tied to the code by three correspondence units; symbolic encryption (secrecy of the ciphers, key binding) — real 3DES/AES/RSA enter only through the stand-in tool (xmlsec1 is not installed; its node selection = first EncryptedData in document order, failure on a node no key opens, is an assumption; the skip variant is covered as a what-if). Not modelled: EncryptedID, several <Advice> children, assertion content other than what Model.Response carries, namespace handling of the self-contained variants (a tested no-op on the observables). Partial: the IdP theorems speak about strings of the symbolic tree, lengths / timing are outside.",
+    "technique": "machine-checked proof (Coq: non-interference by case analysis over the option space, list induction for the decrypt loops, subsequence argument) + correspondence on real encrypted messages + implementation-level oracles",
 }
-TRUSTED = []
-ASSUMPTIONS = []
-RULE = ""
+TRUSTED = [
+    "modelled by hand (coq/Model/Encrypt.v): Server._authn_response (pefim split, to_sign), Entity._response, _encrypt_assertion, has_encrypt_cert_in_metadata, pre_encrypt_assertion (incl. its second application inside CryptoBackendXmlSec1.encrypt_assertion), Entity.sign order; AuthnResponse.parse_assertion (both decrypt loops, decrypt_assertions, find_encrypt_data*, the advice pass, the re-serialisation order of str(self.response), self.response.assertion replaced before the decrypted assertions are checked), SecurityContext.decrypt_keys; the per-assertion checks are Model/Response.v",
+    "symbolic cryptography: an EncryptedData node opens under exactly the key it was made for and reveals nothing otherwise; a signature verifies iff the element is as signed (an EncryptedData inside it replaced by plaintext breaks it)",
+    "the stand-in xmlsec1 (harness/tools/xmlsec_core.py): real RSA / AES through `cryptography`, first EncryptedData in document order, exit 1 when no key opens it; PV_XMLSEC_UNDEC=skip only for the what-if runs",
+    "harness/enc_tools.py, harness/enc_tree.py: reading structure / keys / signatures off emitted bytes, rendering document trees to real signed and encrypted XML, the fault-injecting Popen (n-th --decrypt invocation fails)",
+]
+ASSUMPTIONS = [
+    "the property's hypothesis is read as: encryption of that assertion requested AND (the SP has an encryption KeyDescriptor in metadata OR a certificate is passed in encrypt_cert_*); with neither, pysaml2 silently sends clear text (outside the statement; modelled and compared)",
+    "encrypt_cert_assertion='' (falsy, not None) with no metadata certificate puts the assertion in clear inside <EncryptedAssertion>; encrypt_assertion_self_contained=False with an unsigned assertion always raises EncryptError (second pre_encrypt_assertion): both outside the statement, modelled and compared, described in docs/C17.md",
+    "a fault = every tool invocation of one decrypt_keys call fails (the fault runs use a single configured key so that one invocation = one call)",
+    "allow_unsolicited on: loads() compares SubjectConfirmationData/@InResponseTo of PLAIN assertions only; the per-assertion checks (C05) do not demand it then; counted in evidence (encrypted_accepted_plain_refused), not a violation",
+]
+RULE = ("idp_build: all 64 option combinations x 5 metadata layouts {none, one, two, garbage-first, garbage-only} with no certificate argument, plus per combination a sample of "
+        "layout x encrypt_cert_assertion x encrypt_cert_advice in {None, '', sp, sp2, garbage} (thorough: all 1600 x 64... see code), plus options left to the IdP configuration; random identities with XML/percent/space specials. "
+        "e2e: every emitted response read by SPs holding the needed keys first / second / not at all and by a strict SP (want_* = what was signed). "
+        "sp_pipeline: 12 mutations x 4 signature states x {plain, encrypted for sp / sp2 / a foreign key} x want_assertions_signed x 3 key layouts (+ allow_unsolicited for 3 mutations). "
+        "sp_tree: the listed document shapes x SP options x key layouts x fault schedules {[],[T],[F,T],[T,T],[T,F,T]} x tool policy {fail, skip}. Non-trivial = distinct by all coordinates.")
 
 # --------------------------------------------------------------------------
 # identity provider side
@@ -224,20 +238,19 @@ def unit_idp(ctx):
     return out
 
 
-def judge_idp(ctx, results):
+def judge_idp(ctx, results, fixed=True):
     cases = []
     for c, got, err in results:
         show = dict(flags={k: v for k, v in c["flags"].items() if v}, layout=c["layout"], cert_assertion=c["cert_assertion"],
                     cert_advice=c["cert_advice"], config_defaults=c["config_defaults"])
         exp = expectation(c)
         sec = secrets_of(c["ident"])
-        key = "flags=%s:md=%s:ca=%s:cadv=%s" % ("+".join(k for k in FLAGS if c["flags"][k]) or "-", c["layout"], c["cert_assertion"], c["cert_advice"])
+        fkey = "flags=%s" % ("+".join(k for k in FLAGS if c["flags"][k]) or "-")
+        key = "%s:md=%s:ca=%s:cadv=%s" % (fkey, c["layout"], c["cert_assertion"], c["cert_advice"])
         if isinstance(got, Exn):
             impl = Exn("raised")
             ctx.count("idp:raised:" + got.name)
-            must_raise = "raise" in (exp["main"], exp["adv"])
-            if not must_raise:
-                ctx.oracle_fail("idp-raises:" + key, "create_authn_response raised %s (%s) although a usable certificate exists / nothing is to be encrypted" % (got.name, err), show)
+            # (no response, nothing can leak: not a matter of this property; the model predicts which calls raise)
         else:
             shp, notes = enc_tools.shape(got)
             impl = shp
@@ -255,7 +268,7 @@ def judge_idp(ctx, results):
             for cat in protected:
                 for s in sec[cat]:
                     if enc_tools.readable_in(got, s):
-                        ctx.oracle_fail("leak:%s:%s" % (cat, key), "%s %r of the assertion to be encrypted is readable in the emitted response" % (cat, s), show)
+                        ctx.oracle_fail("leak:%s:%s" % (cat, fkey), "%s %r of the assertion to be encrypted is readable in the emitted response" % (cat, s), show)
                         break
             # which key opens what: main ciphertext / advice ciphertext
             encs = _enc_nodes(shp)
@@ -266,13 +279,13 @@ def judge_idp(ctx, results):
                 want.append(("main", KEYID[exp["main"]]))
             for where, kid in want:
                 if (where, kid) not in encs:
-                    ctx.oracle_fail("opens-under:%s:%s" % (where, key), "the %s ciphertext does not open under the SP's key %d only (found %s)" % (where, kid, encs), show)
+                    ctx.oracle_fail("opens-under:%s:%s" % (where, fkey), "the %s ciphertext does not open under the SP's key %d only (found %s)" % (where, kid, encs), show)
             ctx.nontriv((key, bool(protected)))
         cases.append(dict(id=c["id"], coq=coq_idp_case(c), impl=impl, show=show))
         if c["id"] % 400 == 1:
             ctx.sample(dict(case=show, emitted_structure=impl if not isinstance(impl, Exn) else "raised"))
     ctx.correspond("idp_build", "Model.Status Model.Response Model.Encrypt",
-                   "fun gi : idp_args * ident => show_build (idp_build (fst gi) (snd gi))", "(idp_args * ident)", cases)
+                   "fun gi : idp_args * ident => show_build (%s (fst gi) (snd gi))" % ("idp_build" if fixed else "idp_build_before_fix"), "(idp_args * ident)", cases)
 
 
 def _enc_nodes(shp):
@@ -480,22 +493,276 @@ def unit_tree(ctx, fixed):
     return cases, runs
 
 
+def judge_tree(ctx, runs):
+    """the property on each tree run, stated on the generation spec (no model involved)"""
+    for name, kids, so, keys, faults, policy, got, info, show in runs:
+        fam = name.split(":")[0]
+        ctx.count("tree:%s:%s" % (policy + ("+faults" if faults else ""), "accepted" if isinstance(got, list) else "rejected"))
+        ctx.nontriv((name, tuple(sorted(so.items())), tuple(keys), tuple(faults), policy))
+        if not isinstance(got, list):
+            continue
+        specs = {a["id"]: a for a in enc_tree.all_specs(kids)}
+        where = "%s:%s%s" % (fam, policy, ":faults" if faults else "")
+        for aid in info["ids"] + info["advice"]:
+            a = specs.get(aid)
+            if a is None:
+                ctx.oracle_fail("tree:unknown-assertion:" + where, "an assertion with id %r that is not in the document was read" % aid, show)
+                continue
+            if a.get("sig") in ("corrupt", "wrongkey"):
+                ctx.oracle_fail("tree:bad-signature-read:" + where,
+                                "assertion %s was read although its signature does not verify (%s)" % (aid, a["sig"]), show)
+        for aid in info["ids"]:
+            a = specs.get(aid)
+            if a is None:
+                continue
+            if a.get("mut"):
+                ctx.oracle_fail("tree:mutated-read:%s:%s" % (a["mut"], where), "assertion %s (%s) was read" % (aid, a["mut"]), show)
+            if so.get("was") and not a.get("sig"):
+                ctx.oracle_fail("tree:unsigned-read:" + where, "unsigned assertion %s read although want_assertions_signed" % aid, show)
+        # what no configured key opens yields nothing
+        for aid in info["ids"] + info["advice"]:
+            if aid in specs and not _reachable(kids, aid, keys):
+                ctx.oracle_fail("tree:unopenable-read:" + where, "assertion %s sits under a ciphertext no configured key opens, yet it was read" % aid, show)
+
+
+def _reachable(kids, aid, keys):
+    def go(n, ok):
+        if n[0] == "A":
+            if n[1]["id"] == aid and ok:
+                return True
+            return any(go(k, ok) for k in n[2] + n[3])
+        if n[0] == "Enc":
+            return go(n[2], ok and n[1] in keys)
+        return any(go(k, ok) for k in n[1])
+    return any(go(k, True) for k in kids)
+
+
+# --------------------------------------------------------------------------
+# service provider side, the shared pipeline model: C04/C05 mutations INSIDE the plaintext
+# --------------------------------------------------------------------------
+MUTATIONS = [None, "expired", "notyet", "audience", "audience2", "irt", "recipient", "scd-expired", "session-expired", "no-authn",
+             "unknown-condition", "nb-after-nooa"]
+
+
+def mutated(mut, sig):
+    a = pipeline.A(sig=sig)
+    k = a["conditions"]
+    c0 = a["confirmations"][0]
+    if mut == "expired":
+        k["nb"], k["nooa"] = NOW - 3000, NOW - 1000
+    elif mut == "notyet":
+        k["nb"], k["nooa"] = NOW + 1000, NOW + 3000
+    elif mut == "audience":
+        k["audiences"] = [["https://other.example.org/sp"]]
+    elif mut == "audience2":
+        k["audiences"] = [[env.SP_ID], ["https://other.example.org/sp"]]
+    elif mut == "irt":
+        c0["irt"] = "req-other"
+    elif mut == "recipient":
+        c0["recipient"] = "https://evil.example.org/acs"
+    elif mut == "scd-expired":
+        c0["nooa"] = NOW - 1000
+    elif mut == "session-expired":
+        a["authn"] = [{"session_nooa": NOW - 1000}]
+    elif mut == "no-authn":
+        a["authn"] = []
+    elif mut == "unknown-condition":
+        k["unknown_condition"] = True
+    elif mut == "nb-after-nooa":
+        k["nb"], k["nooa"] = NOW + 200, NOW + 100
+    return a
+
+
+def unit_pipeline(ctx):
+    cases = []
+    n = 0
+    keysets = [("sp", "sp2"), ("sp2", "sp"), ("sp",)]
+    outcomes = {}
+    with env.Clock(NOW):
+        for mut, sig, deliver, was, keys in itertools.product(MUTATIONS, [None, "valid", "corrupt", "wrongkey"],
+                                                             ["plain", "sp", "sp2", "other"], [False, True], keysets):
+            for au in ([False, True] if mut in (None, "irt", "audience") else [False]):
+                a = mutated(mut, sig)
+                if deliver == "plain":
+                    spec = pipeline.R(assertions=[a])
+                else:
+                    spec = pipeline.R(assertions=[], encrypted=[dict(a, enc_for=deliver)])
+                case = pipeline.SPCase(was=was, enc_keys=keys, allow_unsolicited=au, conv_info={"entity_id": env.SP_ID})
+                xml = pipeline.build_xml(spec)
+                coq, ids = pipeline.case_coq(case, spec, NOW)
+                got, info = run_sp_tree(case, xml, ids)
+                impl = got[0] if isinstance(got, list) else got
+                position = "plain" if deliver == "plain" else ("none" if deliver not in keys else ["first", "second"][keys.index(deliver)])
+                show = dict(mutation=mut, sig=sig, delivered=deliver, key_position=position, want_assertions_signed=was, sp_keys=list(keys), allow_unsolicited=au)
+                cases.append(dict(id=n, coq=coq, impl=impl, show=show))
+                n += 1
+                ctx.nontriv(tuple(show.items()))
+                accepted = isinstance(got, list)
+                ctx.count("pipeline:%s:%s" % (position, "accepted" if accepted else "rejected"))
+                outcomes[(mut, sig, deliver, was, keys, au)] = accepted
+                must_reject = (mut is not None and not (mut == "irt" and au)) or sig in ("corrupt", "wrongkey") or (was and not sig)
+                key = "mut=%s:sig=%s:key=%s:was=%s:au=%s" % (mut, sig, position, was, au)
+                if position == "none":
+                    if accepted and (info["ids"] or info["name_id"] is not None or info["ava"]):
+                        ctx.oracle_fail("pipeline:identity-from-undecryptable:" + key, "content no configured key opens yielded %r" % (info,), show)
+                elif position in ("first", "second"):
+                    if accepted and must_reject:
+                        ctx.oracle_fail("pipeline:decrypted-escapes-check:" + key,
+                                        "an encrypted assertion with %s / signature %s was accepted (want_assertions_signed=%s)" % (mut, sig, was), show)
+                    if not accepted and not must_reject:
+                        ctx.oracle_fail("pipeline:valid-encrypted-rejected:" + key, "a valid encrypted assertion was rejected: %r" % (info,), show)
+                    if accepted and (info["name_id"] != "subject-1" or info["ava"] != {"givenName": ["Anna"]}):
+                        ctx.oracle_fail("pipeline:identity-differs:" + key, "identity read from the decrypted assertion is %r" % (info,), show)
+                if n % 700 == 1:
+                    ctx.sample(dict(case=show, outcome=impl))
+    # a decrypted assertion must not be accepted where the same assertion sent plain is refused
+    escapes = 0
+    for (mut, sig, deliver, was, keys, au), acc in outcomes.items():
+        if deliver in keys and deliver != "plain" and acc and not outcomes[(mut, sig, "plain", was, keys, au)]:
+            escapes += 1
+            if not (mut == "irt" and au):
+                ctx.oracle_fail("pipeline:accepted-encrypted-refused-plain:mut=%s:sig=%s:was=%s:au=%s" % (mut, sig, was, au),
+                                "accepted when encrypted, refused when plain", dict(mutation=mut, sig=sig, was=was, allow_unsolicited=au, keys=list(keys)))
+    ctx.extra["encrypted_accepted_plain_refused"] = (
+        "%d cells, all of them: allow_unsolicited on, response answers an outstanding request, SubjectConfirmationData names another one "
+        "(loads() compares InResponseTo of PLAIN assertions only; the per-assertion checks do not require it when unsolicited responses are allowed)" % escapes)
+    ctx.correspond("sp_pipeline_encrypted", pipeline.IMPORTS, pipeline.MODEL_ACCEPT, pipeline.CTYPE, cases, shard=200)
+
+
+# --------------------------------------------------------------------------
+# end to end: what the IdP emitted, read by SPs holding first / second / no matching key pair
+# --------------------------------------------------------------------------
+_sps = {}
+
+
+def layout_sp(layout, keys, wrs=False, was=False):
+    k = (layout, tuple(keys), wrs, was)
+    if k not in _sps:
+        _sps[k] = env.make_sp(entityid=layout_entity(layout), allow_unknown_attributes=True,
+                              encryption_keypairs=[{"key_file": env.key(x), "cert_file": env.cert(x)} for x in keys],
+                              sp={"want_response_signed": wrs, "want_assertions_signed": was})
+    return _sps[k]
+
+
+def unit_e2e(ctx, results):
+    import base64
+    todo = [(c, got) for c, got, err in results if isinstance(got, str) and (c["cert_assertion"], c["cert_advice"]) == (None, None)]
+    if ctx.quick:
+        todo = [x for j, x in enumerate(todo) if j % 2 == 0 or x[0]["flags"]["pefim"]]
+    with env.Clock(NOW):
+        for c, xml in todo:
+            exp = expectation(c)
+            f = c["flags"]
+            need = set()
+            if exp["want_main"] and exp["main"] not in (None, "raise"):
+                need.add(exp["main"])
+            if exp["want_adv"] and exp["adv"] not in (None, "raise"):
+                need.add(exp["adv"])
+            attrs = dict((k, list(v)) for k, v in c["ident"]["attrs"])
+            shp, _ = enc_tools.shape(xml)
+            main_signed = _main_signed(shp)
+            wire = base64.b64encode(xml.encode("utf-8")).decode("ascii")
+            variants = [("all-keys-first", list(need) + [k for k in ("sp", "sp2") if k not in need], False, False),
+                        ("all-keys-second", [k for k in ("sp2", "sp", "other") if k not in need][:1] + list(need), False, False),
+                        ("strict", list(need) or ["sp"], f["sign_response"], main_signed),
+                        ("no-key", ["other"], False, False)]
+            for vname, keys, wrs, was in variants:
+                sp = layout_sp(c["layout"], keys, wrs, was)
+                show = dict(flags={k: v for k, v in f.items() if v}, layout=c["layout"], sp_keys=keys, variant=vname)
+                key = "e2e:%s:flags=%s" % (vname, "+".join(k for k in FLAGS if f[k]) or "-")
+                try:
+                    r = sp.parse_authn_request_response(wire, env.BINDING_HTTP_POST, {"req-1": "/home"})
+                    got = dict(name_id=r.name_id.text if r.name_id is not None else None, ava=r.ava or {})
+                except BaseException as e:  # noqa
+                    if isinstance(e, (KeyboardInterrupt, SystemExit)):
+                        raise
+                    got = Exn(type(e).__name__)
+                ctx.count("e2e:%s:%s" % (vname, "accepted" if isinstance(got, dict) else "rejected"))
+                ctx.evaluations += 1
+                if vname == "no-key":
+                    if isinstance(got, dict) and need:
+                        leaked = [v for vs in attrs.values() for v in vs if any(v in xs for xs in got["ava"].values())]
+                        if leaked or (exp["want_main"] and got["name_id"] is not None):
+                            ctx.oracle_fail(key, "an SP without the key read %r" % (got,), show)
+                    continue
+                if not isinstance(got, dict):
+                    ctx.oracle_fail(key, "the SP the response was encrypted for (keys %s) rejected it: %s" % (keys, got.name), show)
+                    continue
+                want_ava = dict((k, v) for k, v in attrs.items())
+                if got["name_id"] != c["ident"]["name_id"] or dict((k, sorted(v)) for k, v in got["ava"].items()) != dict((k, sorted(v)) for k, v in want_ava.items()):
+                    ctx.oracle_fail(key, "identity read %r differs from the one asserted %r" % (got, dict(name_id=c["ident"]["name_id"], ava=want_ava)), show)
+
+
+def _main_signed(shp):
+    """is the (possibly encrypted) main assertion signed"""
+    def find(node):
+        if not isinstance(node, list) or not node:
+            return None
+        if node[0] == "Assertion":
+            return any(isinstance(x, list) and x and x[0] == "Signature" and x[1] != 0 for x in node[3:])
+        if node[0] == "Advice":
+            return None
+        for x in node[1:]:
+            r = find(x)
+            if r is not None:
+                return r
+        return None
+    for x in shp:
+        r = find(x)
+        if r is not None:
+            return r
+    return False
+
+
 def run(ctx):
     env.tool_inprocess(True)
     fixed = os.environ.get("C17_BEFORE_FIX") != "1"
+    only = os.environ.get("C17_ONLY", "").split(",") if os.environ.get("C17_ONLY") else ["idp", "e2e", "pipeline", "tree"]
     try:
-        if os.environ.get("C17_ONLY", "idp") == "idp" or not os.environ.get("C17_ONLY"):
+        if "idp" in only or "e2e" in only:
             results = unit_idp(ctx)
-            judge_idp(ctx, results)
-        cases, runs = unit_tree(ctx, fixed)
-        for name, kids, so, keys, faults, policy, got, info, show in runs:
-            ctx.count("tree:%s" % ("accepted" if isinstance(got, list) else "rejected"))
-        ctx.correspond("sp_tree", "Model.Status Model.Response Model.Encrypt", TREE_MODEL, TREE_TYPE, cases, shard=100)
+            judge_idp(ctx, results, fixed)
+            if "e2e" in only:
+                unit_e2e(ctx, results)
+        if "pipeline" in only:
+            unit_pipeline(ctx)
+        if "tree" in only:
+            cases, runs = unit_tree(ctx, fixed)
+            judge_tree(ctx, runs)
+            ctx.correspond("sp_tree", "Model.Status Model.Response Model.Encrypt", TREE_MODEL, TREE_TYPE, cases, shard=100)
     finally:
         enc_tools.cleanup()
 
 
 def replay(ctx, payload):
     env.tool_inprocess(True)
-    print("replay:", json.dumps(payload.get("input"))[:2000])
+    inp = payload.get("input")
+    print("replay input:", json.dumps(inp)[:3000])
+    if not isinstance(inp, dict):
+        return 0
+    try:
+        with env.Clock(NOW):
+            if "shape" in inp:
+                kids = dict(tree_shapes(ctx))[inp["shape"]]
+                xml, ids = enc_tree.render_response(kids), enc_tree.id_table(kids)
+                case = pipeline.SPCase(enc_keys=tuple(inp["keys"]), **inp["sp"])
+                got, info = with_faults(inp["faults"], inp["policy"], lambda: run_sp_tree(case, xml, ids))
+                print("tree:", [enc_tree.describe(k) for k in kids])
+                print("implementation outcome:", got, info)
+            elif "layout" in inp and "variant" not in inp:
+                fl = {k: bool(inp["flags"].get(k)) for k in FLAGS}
+                c = dict(flags=fl, layout=inp["layout"], cert_assertion=inp.get("cert_assertion"), cert_advice=inp.get("cert_advice"),
+                         ident=gen_ident(ctx.rng, 0), config_defaults=inp.get("config_defaults", False))
+                got, err = run_idp_case(c)
+                print("identity:", c["ident"])
+                print("emitted:", got if not isinstance(got, str) else got[:6000], err or "")
+            elif "mutation" in inp and "delivered" in inp:
+                a = mutated(inp["mutation"], inp["sig"])
+                spec = pipeline.R(assertions=[a]) if inp["delivered"] == "plain" else pipeline.R(assertions=[], encrypted=[dict(a, enc_for=inp["delivered"])])
+                case = pipeline.SPCase(was=inp["want_assertions_signed"], enc_keys=tuple(inp["sp_keys"]), allow_unsolicited=inp["allow_unsolicited"], conv_info={"entity_id": env.SP_ID})
+                xml = pipeline.build_xml(spec)
+                _, ids = pipeline.case_coq(case, spec, NOW)
+                print("implementation outcome:", run_sp_tree(case, xml, ids))
+    finally:
+        enc_tools.cleanup()
     return 0
